@@ -12,14 +12,14 @@ make)
   if [ -d "$D/repo" ]; then git -C /repo worktree remove --force "$D/repo" 2>/dev/null || rm -rf "$D/repo"; fi
   git -C /repo worktree prune
   git -C /repo worktree add --detach "$D/repo" HEAD >/dev/null 2>&1
-  EX=""; [ -d "$D/verif/harness/target" ] && EX="--exclude harness/target"   # keep the lab's own cargo cache once it exists
+  EX=""; [ -d "$D/verif/harness/target" ] && EX="--exclude harness/target --exclude harness/target-plain"   # keep the lab's own cargo cache once it exists
   rsync -a --delete $EX --exclude tmp --exclude .git --exclude replays "$VSRC/" "$D/verif/"
   sed -i "s#path = \"/repo\"#path = \"$D/repo\"#" "$D/verif/harness/Cargo.toml"
   mkdir -p "$D/verif/tmp"
   echo "$D" ;;
 sync)
   git -C "$D/repo" checkout -q -- . ; git -C "$D/repo" checkout -q --detach "${LAB_REPO_REV:-$(git -C /repo rev-parse HEAD)}"
-  rsync -a --delete --exclude harness/target --exclude tmp --exclude .git --exclude replays "$VSRC/" "$D/verif/"
+  rsync -a --delete --exclude harness/target --exclude harness/target-plain --exclude tmp --exclude .git --exclude replays "$VSRC/" "$D/verif/"
   sed -i "s#path = \"/repo\"#path = \"$D/repo\"#" "$D/verif/harness/Cargo.toml" ;;
 try)
   P="$3"; ID="$4"; TIER="${5:-quick}"
